@@ -32,7 +32,7 @@ def main():
     try:
         shutil.copy("/repo/Cargo.lock", os.path.join(wt, "Cargo.lock")) if os.path.exists("/repo/Cargo.lock") else None
         shutil.copy(os.path.join(d, "demo.rs"), os.path.join(wt, "tests", name + ".rs"))
-        rc, out = sh(["cargo", "test", "--offline"] + feats + ["--test", name], wt, env)
+        rc, out = sh(["cargo", "test", "--offline"] + feats + ["--test", name, "--", "--test-threads=1"], wt, env)
         res["demo_on_head"] = "pass" if rc == 0 else "FAIL"
         if rc != 0:
             print(out[-2000:])
@@ -42,7 +42,7 @@ def main():
         if rc != 0:
             print("NOT-CONFIRMED: patch does not apply\n" + out)
             return 1
-        rc, out = sh(["cargo", "test", "--offline"] + feats + ["--test", name], wt, env)
+        rc, out = sh(["cargo", "test", "--offline"] + feats + ["--test", name, "--", "--test-threads=1"], wt, env)
         res["demo_with_patch"] = "fail" if rc != 0 else "PASS"
         if rc == 0:
             print("NOT-CONFIRMED: demonstration still passes with the patch")
